@@ -1,7 +1,7 @@
 """C18: text codecs and numeric conversions are exact inverses and bounds-safe."""
 UNITS = [dict(
     name='codecs', harness='harness/c18_codecs.cpp', sources=['repo:src/String.cpp', 'repo:src/Memory.cpp'],
-    defines={'quick': {'VF_B64N': 3, 'VF_B64ARB': 4, 'VF_UTFN': 4}, 'thorough': {'VF_B64N': 6, 'VF_B64ARB': 8, 'VF_UTFN': 5}},
+    defines={'quick': {'VF_B64N': 3, 'VF_B64ARB': 4, 'VF_UTFN': 4}, 'thorough': {'VF_B64N': 12, 'VF_B64ARB': 12, 'VF_UTFN': 9}},
     entries=['utf8_roundtrip', 'utf8_bounds', 'hex', 'base64_roundtrip', 'base64_arbitrary', 'ints', 'int_text'],
     opts={'all': {'unwind': 64}},
     split={'quick': 8, 'thorough': 16},
@@ -10,7 +10,7 @@ UNITS = [dict(
 )]
 BOUNDS = {
     'quick': 'all code points <= U+10FFFF (one symbolic 32-bit value, four range classes) and all values above; arbitrary byte buffers of <= 4 bytes in exactly sized objects for length/isValid/fromString; fromHex of <= 3 symbolic bytes; base64 round trip of <= 3 symbolic bytes and arbitrary input strings of <= 4 bytes (every byte value incl. >= 0x80 and NUL); full-range symbolic 32/64-bit integers through fromInt/UInt/Int64/UInt64 and back',
-    'thorough': 'UTF-8 buffers <= 5 bytes, base64 round trip <= 6 bytes, arbitrary base64 input <= 8 bytes',
+    'thorough': 'UTF-8 buffers <= 9 bytes, base64 round trip <= 12 bytes, arbitrary base64 input <= 12 bytes',
 }
 OUTSIDE = 'longer inputs; libc itself: vsnprintf / atoi / atoll / strtoul / strtoull are replaced by reference models, so what is decided for the integer conversions is the glue (format string, width, signedness, buffer handling of String::printf)'
 ASSUMPTIONS = ['clang++-14 -O1 IR of include/nstd/Unicode.hpp, src/String.cpp (fromHex, fromBase64, fromInt..., printf), src/Memory.cpp',
